@@ -98,7 +98,7 @@ Qed.
 Theorem C18_new_reader : forall data sched eofd,
   inv (new_reader data sched eofd) /\ content (new_reader data sched eofd) = data.
 Proof. exact new_reader_ok. Qed.
-(* The defect repaired by fix e4e565a (one Read per field, count ignored): behind a reader that hands out one octet
+(* The defect repaired by fix 0373e10 (one Read per field, count ignored): behind a reader that hands out one octet
    per call a three-octet field reads 01 00 00 and leaves 02 03 to the next field; readFull reads 01 02 03 as the
    list does. *)
 Theorem C18_single_read_refuted :
